@@ -23,7 +23,7 @@ use std::sync::Arc;
 
 type SE = Arc<Entry<EntrySealed, EntryCommitted>>;
 
-const ITEMS: [&str; 9] = ["person with a display name and mail", "posix person", "group with the people as members", "group nested in that group", "service account", "OAuth2 client with a scope map to the group", "a person added to the shipped idm_admins group", "a deleted (recycled) person", "a changed description on a shipped group"];
+const ITEMS: [&str; 10] = ["person with a display name and mail", "posix person", "group with the people as members", "group nested in that group", "service account", "OAuth2 client with a scope map to the group", "a person added to the shipped idm_admins group", "a deleted (recycled) person", "a changed description on a shipped group", "an administrator-defined attribute type entry"];
 const G1: u128 = 0xc480_0000_0000_4000_8000_0000_0000_0001;
 const G2: u128 = 0xc480_0000_0000_4000_8000_0000_0000_0002;
 const O1: u128 = 0xc480_0000_0000_4000_8000_0000_0000_0003;
@@ -95,6 +95,18 @@ fn content(rt: &tokio::runtime::Runtime, qs: &QueryServer, mask: usize) -> Resul
             if has(7) {
                 w.internal_create(vec![person_entry("pd", person_uuid(7))])?;
                 w.internal_delete_uuid(person_uuid(7))?;
+            }
+            if has(9) {
+                let mut e: kanidmd_lib::entry::Entry<kanidmd_lib::entry::EntryInit, kanidmd_lib::entry::EntryNew> = kanidmd_lib::entry::Entry::new();
+                e.add_ava(Attribute::Class, EntryClass::Object.to_value());
+                e.add_ava(Attribute::Class, EntryClass::AttributeType.to_value());
+                e.add_ava(Attribute::AttributeName, Value::new_iutf8("siteattribute"));
+                e.add_ava(Attribute::Uuid, Value::Uuid(Uuid::from_u128(O1 + 0x10)));
+                e.add_ava(Attribute::Description, Value::new_utf8s("defined by the site's administrator"));
+                e.add_ava(Attribute::MultiValue, Value::Bool(false));
+                e.add_ava(Attribute::Unique, Value::Bool(false));
+                e.add_ava(Attribute::Syntax, Value::new_syntaxs("UTF8STRING").ok_or(OperationError::InvalidValueState)?);
+                w.internal_create(vec![e])?;
             }
             if has(8) {
                 w.internal_modify_uuid(UUID_IDM_PEOPLE_ADMINS, &ModifyList::new_purge_and_set(Attribute::Description, Value::new_utf8s("site specific description")))?;
